@@ -106,6 +106,8 @@ def rand_scenario(rng, idx, focus):
             ops = ["next", "reply"] if cont else ["reply"]
             if rng.random() < 0.08:
                 ops = ops[:-1] + ["badreply", "reply"]
+            elif rng.random() < 0.06:
+                ops = ops[:-1] + ["xreply"]
         p = {"sid": sid, "seq": seq, "ty": ty, "min": rng.randint(0, 1), "fl": fl, "rd": rd, "ops": ops, "bv": rng.randint(0, 9)}
         if rd in ("ok",) and rng.random() < 0.7:
             b = rand_body(rng, ty)
